@@ -674,24 +674,25 @@ Section BProofs.
   Notation tfinal := (tfinal Res F).
   Notation tresults := (tresults Res F).
   Notation tpure := (tpure Res F).
+  Notation tcanon := (tcanon Res F).
 
-  Lemma tstep_fixed tc t b c : t_guard tc t = true -> tstep tc t (Some b) c = (Some b, tpure t b c).
+  Lemma tstep_fixed tc t b c : t_guard tc t = true -> tstep tc t (Some b) c = (Some b, tpure tc t b c).
   Proof.
-    intros G. destruct c as [cl x]. unfold C19_model.tstep, C19_model.tpure. simpl.
-    destruct (t_sets tc t cl); rewrite ?G; reflexivity.
+    intros G. destruct c as [cl x]. unfold C19_model.tstep, C19_model.tpure, C19_model.tcanon. simpl.
+    destruct (t_sets tc t cl); rewrite ?G; simpl; [reflexivity|]. destruct (t_uses tc t cl); reflexivity.
   Qed.
 
   Lemma tfinal_fixed tc t b cs : t_guard tc t = true -> tfinal tc t (Some b) cs = Some b.
   Proof. intros G. induction cs as [|c r IH]; simpl; auto. now rewrite tstep_fixed. Qed.
 
-  Lemma tresults_fixed tc t b cs : t_guard tc t = true -> tresults tc t (Some b) cs = map (tpure t b) cs.
+  Lemma tresults_fixed tc t b cs : t_guard tc t = true -> tresults tc t (Some b) cs = map (tpure tc t b) cs.
   Proof. intros G. induction cs as [|c r IH]; simpl; auto. rewrite tstep_fixed; auto. simpl. now rewrite IH. Qed.
 
   Lemma b_fixed_is_order_independent_lemma tc t : t_guard tc t = true ->
     forall b cs1 cs2 c,
-      snd (tstep tc t (tfinal tc t (Some b) cs1) c) = tpure t b c /\
-      snd (tstep tc t (tfinal tc t (Some b) cs2) c) = tpure t b c /\
-      tresults tc t (Some b) cs1 = map (tpure t b) cs1 /\
+      snd (tstep tc t (tfinal tc t (Some b) cs1) c) = tpure tc t b c /\
+      snd (tstep tc t (tfinal tc t (Some b) cs2) c) = tpure tc t b c /\
+      tresults tc t (Some b) cs1 = map (tpure tc t b) cs1 /\
       (Permutation cs1 cs2 -> Permutation (tresults tc t (Some b) cs1) (tresults tc t (Some b) cs2)).
   Proof.
     intros G b cs1 cs2 c. rewrite !tfinal_fixed, !tstep_fixed, !tresults_fixed; auto.
@@ -701,18 +702,62 @@ Section BProofs.
   Lemma first_call_fixes_b_lemma tc t : t_guard tc t = true ->
     forall c0 cs, t_sets tc t (fst c0) = true -> amax (snd c0) <> 0%Z ->
       tfinal tc t None (c0 :: cs) = Some (amax (snd c0)) /\
-      tresults tc t None (c0 :: cs) = map (tpure t (amax (snd c0))) (c0 :: cs).
+      tresults tc t None (c0 :: cs) = map (tpure tc t (amax (snd c0))) (c0 :: cs).
   Proof.
     intros G [cl x] cs S NZ. simpl in S, NZ.
-    assert (E : tstep tc t None (cl, x) = (Some (amax x), tpure t (amax x) (cl, x))).
-    { unfold C19_model.tstep, C19_model.tpure. simpl. rewrite S.
+    assert (E : tstep tc t None (cl, x) = (Some (amax x), tpure tc t (amax x) (cl, x))).
+    { unfold C19_model.tstep, C19_model.tpure, C19_model.tcanon. simpl. rewrite S.
       destruct (Z.eqb (amax x) 0) eqn:Z0; [apply Z.eqb_eq in Z0; contradiction | reflexivity]. }
     change (tfinal tc t None ((cl, x) :: cs)) with (tfinal tc t (fst (tstep tc t None (cl, x))) cs).
     change (tresults tc t None ((cl, x) :: cs))
       with (snd (tstep tc t None (cl, x)) :: tresults tc t (fst (tstep tc t None (cl, x))) cs).
     rewrite E. cbn [fst snd]. rewrite tfinal_fixed, tresults_fixed; auto.
   Qed.
+
+  (* every call whose result depends on the scale also stores it ("infers its scale from the first grid it sees") *)
+  Definition scale_discipline (tc : tcfg) (t : tkind) : Prop := forall cl, t_uses tc t cl = true -> t_sets tc t cl = true.
+
+  (* then, whatever the order of the calls and whether b was given or inferred, every result in a history is a
+     function of the call alone (one scale ob for the whole life of the object): the same call returns the same value
+     wherever it occurs *)
+  Lemma results_function_of_call_lemma tc t : t_guard tc t = true -> scale_discipline tc t ->
+    forall b0 cs, (forall r, In r (tresults tc t b0 cs) -> r <> TErr) ->
+    exists ob, tresults tc t b0 cs = map (tcanon tc t ob) cs /\ (forall b, b0 = Some b -> ob = Some b).
+  Proof.
+    intros G D b0 cs. destruct b0 as [b|].
+    - intros _. exists (Some b). split; [now rewrite tresults_fixed | intros b' E; now inversion E].
+    - induction cs as [|[cl x] r IH]; intros NE.
+      + exists None. split; [reflexivity | discriminate].
+      + change (tresults tc t None ((cl, x) :: r))
+          with (snd (tstep tc t None (cl, x)) :: tresults tc t (fst (tstep tc t None (cl, x))) r) in *.
+        destruct (t_sets tc t cl) eqn:S.
+        * assert (E : tstep tc t None (cl, x) = (Some (amax x), if Z.eqb (amax x) 0 then TErr else TVal (F t cl (Some (amax x)) x))).
+          { unfold C19_model.tstep. rewrite S. destruct (Z.eqb (amax x) 0); reflexivity. }
+          rewrite E in *. cbn [fst snd] in *. destruct (Z.eqb (amax x) 0) eqn:Z0.
+          -- exfalso. apply (NE TErr); [left; reflexivity | reflexivity].
+          -- exists (Some (amax x)). split; [|discriminate]. rewrite tresults_fixed; auto. simpl. f_equal.
+             unfold C19_model.tcanon. simpl. now rewrite S.
+        * assert (U : t_uses tc t cl = false).
+          { destruct (t_uses tc t cl) eqn:U; auto. rewrite (D cl U) in S. discriminate. }
+          assert (E : tstep tc t None (cl, x) = (None, TVal (F t cl None x))).
+          { unfold C19_model.tstep. rewrite S, U. reflexivity. }
+          rewrite E in *. cbn [fst snd] in *.
+          destruct IH as (ob & Hob & _); [intros r0 Hr; apply NE; right; exact Hr|].
+          exists ob. split; [|discriminate]. simpl. rewrite Hob. f_equal.
+          unfold C19_model.tcanon. simpl. now rewrite S, U.
+  Qed.
 End BProofs.
+
+(* a call that uses an inferred scale without storing it breaks the property: the same call returns two values *)
+Lemma scale_used_not_kept_refuted_lemma tc t cl : t_guard tc t = true -> t_uses tc t cl = true -> t_sets tc t cl = false ->
+  t_sets tc t CTransform = true ->
+  exists c1 c2, let rs := tresults (option Z) (fun _ _ b _ => b) tc t None [c1; c2; c1] in
+                nth 0 rs TErr <> nth 2 rs TErr.
+Proof.
+  intros G U S T. exists (cl, [2]%Z), (CTransform, [5]%Z).
+  assert (N : cl <> CTransform) by (intros ->; congruence).
+  cbn. rewrite !S, !U. cbn. rewrite !T. cbn. rewrite ?G, ?S, ?U. cbn. discriminate.
+Qed.
 
 Lemma b_unfixed_is_order_dependent_lemma :
   exists c1 c2, tfinal unit (fun _ _ _ _ => tt) tcfg_pinned TLinearInf None [c1; c2]
